@@ -342,6 +342,16 @@ func c08Gen(t *rapid.T, rec *evid.Recorder) c08Case {
 			pc.Map = true
 			c.Cfgs = append(c.Cfgs, pc)
 		}
+	} else {
+		// compact, the default pretty options and two of the 20 pretty configurations drawn per case
+		c.Cfgs = []Cfg{{Map: true}, {Pretty: true, Indent: 99, Map: true}}
+		all := prettyCfgs()
+		for k := 0; k < 2; k++ {
+			pc := all[r.Intn(len(all), "prettycfg")]
+			pc.Map = true
+			c.Cfgs = append(c.Cfgs, pc)
+			rec.Class("config:" + pc.String())
+		}
 	}
 	return c
 }
